@@ -164,6 +164,7 @@ def pyErrToJson : PyErr → Json
   | .typeError => Json.arr #["typeError"]
 
 def genErrToJson : GenErr → Json
+  | .multilineDefault f => Json.arr #["multilineDefault", jn f]
   | .nameConflict ns => Json.arr #["nameConflict", jn ns]
   | .unhandledArgType ns r => Json.arr #["unhandledArgType", jn ns, jn r]
   | .defaultWithoutNamespace f => Json.arr #["defaultWithoutNamespace", jn f]
@@ -225,6 +226,9 @@ def handle (op : String) (j : Json) : Except String Json := do
       let n := s2l n
       Json.arr #[jn (fmtUnderscores n), jn (fmtPascal n), jn (fmtFunc n version), jn (fmtNamespace n), jn (fmtVarR n),
                  Json.arr ((splitWords n).map jn).toArray]).toArray)])
+  | "decl.pyclient.wraps" =>
+    let texts ← strList j "texts"
+    pure (ok [("out", Json.arr (texts.map fun t => Json.bool (pformatWraps (s2l t))).toArray)])
   | "decl.pyclient.keywords" =>
     pure (ok [("python", Json.arr (pyKeywords.map jn).toArray), ("reserved", Json.arr (reservedKeywords.map jn).toArray)])
   | "decl.pyclient.module" =>
@@ -234,7 +238,7 @@ def handle (op : String) (j : Json) : Except String Json := do
     | .ok cm =>
       let ctors := api.structs.map fun s =>
         Json.arr #[jn s.ref.1, jn s.ref.2, Json.arr ((structCtorParams api s.ref).map jn).toArray,
-                   Json.bool (noNullableAlias api s.ref), Json.bool (defaultsWellTyped api s.ref)]
+                   Json.bool (noNullableAlias api s.ref), Json.bool (defaultsWellTyped api s.ref && defaultsPrintable api s.ref)]
       pure (ok [("imports", Json.arr (cm.imports.map jn).toArray), ("importsWarnings", Json.bool cm.importsWarnings),
                 ("methods", Json.arr (cm.methods.map (methodToJson api cm)).toArray),
                 ("load", match loadModule api cm with | .ok _ => Json.null | .error e => pyErrToJson e),
